@@ -5,7 +5,8 @@
              reference and prints the prescribed results of Trim / Force / TrimEachLine.
    InitWidget: every initial state is an abstract widget configuration (label, text view, list
              box, code area; see the sets below).  TLC prints it; the executor renders it with the
-             real pkg/cli/tk widget at every W in 2..8, H in 1..4 and hands the projected line
+             real pkg/cli/tk widget at the sizes of the tier (all of W in 2..8, H in 1..4 in the thorough
+             tier) and hands the projected line
              widths to JudgeWidth. *)
 EXTENDS Width, TLC, Json, SequencesExt
 CONSTANTS MaxLen, MaxLenNL, MaxW, Tier
@@ -45,14 +46,14 @@ TVLines == IF Tier = 1 THEN {<<>>, <<CA, CA, CA>>, <<CW, CA>>, <<CA, CW, CW>>, <
 RECURSIVE Seqs(_, _)
 Seqs(A, n) == IF n = 0 THEN {<<>>} ELSE {<<>>} \cup {<<x>> \o s : x \in A, s \in Seqs(A, n - 1)}
 TextViewCfgs == {[kind |-> "textview", lines |-> ls, first |-> f, scrollable |-> sc] :
-                   ls \in Seqs(TVLines, 3), f \in 0..3, sc \in BOOLEAN}
+                   ls \in Seqs(TVLines, IF Tier = 1 THEN 2 ELSE 3), f \in 0..3, sc \in BOOLEAN}
 
 \* list box items: single-line items for both layouts, multi-line items for the vertical one
 Items1 == {<<CA>>, <<CW, CA>>, <<CA, CA, CA, CA>>, <<CA, CZ>>}
 ItemsN == Items1 \cup {<<CA, CN, CA>>, <<CW, CN, CA, CN, CA, CN, CW>>}
 ListBoxCfgs ==
   {[kind |-> "listbox", horizontal |-> h, items |-> it, selected |-> sel, first |-> f, padding |-> p, extend |-> e] :
-      h \in BOOLEAN, it \in Seqs(ItemsN, 3), sel \in 0..2, f \in 0..2, p \in {0, 1}, e \in BOOLEAN}
+      h \in BOOLEAN, it \in Seqs(ItemsN, IF Tier = 1 THEN 2 ELSE 3), sel \in 0..2, f \in 0..2, p \in {0, 1}, e \in BOOLEAN}
 ListBoxOK(x) == /\ (x.items = <<>> => x.selected = 0 /\ x.first = 0)
                 /\ (x.items # <<>> => x.selected < Len(x.items) /\ x.first < Len(x.items))
                 /\ (x.horizontal => \A i \in 1..Len(x.items) : \A j \in 1..Len(x.items[i]) : ~IsNL(x.items[i][j]))
